@@ -82,6 +82,7 @@ def _quiet_unraisable(unraisable):
 
 
 CALLS: list = []  # (tag, 'apply'|'train') — one entry per actor method invocation
+EXT = 100  # states of the externally committed generation: ('stored', EXT + position)
 
 
 def _actors():
@@ -246,20 +247,26 @@ def make_assets(spec, ex, rec: Recorder):
             return Term('dumped', state)
 
         def put(self, tag):
+            # `State.commit` replaces its generation by what we return: the committed states become the previous ones
             rec.commits.append(tuple(tag.states))
-            return gen
+            return Generation([s.items[0] if isinstance(s, Term) and s.kind == 'dumped' else s for s in tag.states])
+
+    release = Release()
 
     class Generation:
-        release = Release()
         tag = Tag()
+
+        def __init__(self, states):
+            self.states = states  # None = no previous generation
+            self.release = release
 
         def get(self, key):
             rec.loads.append(key)
-            if prev is None or not isinstance(key, int) or key >= len(prev):
+            if self.states is None or not isinstance(key, int) or key >= len(self.states):
                 raise forml.MissingError('no previous generation')
-            return Term('stored', key) if prev[key] else None
+            return self.states[key]
 
-    gen = Generation()
+    gen = Generation(None if prev is None else [Term('stored', i) if b else None for i, b in enumerate(prev)])
     gids = []
     for p in a['persistent']:
         if isinstance(p, int) and p in ex['gids']:
@@ -359,7 +366,13 @@ def tree_hashes(table):
 # --------------------------------------------------------------------------------------------------
 
 
-def eval_graph(ex, assets_spec):
+def prev_values(prev):
+    """spec['assets']['prev'] (None | list of bool) as canonical stored states by list position."""
+    return None if prev is None else [['stored', i] if b else 'none' for i, b in enumerate(prev)]
+
+
+def eval_graph(ex, assets_spec, prev_vals='spec'):
+    """Direct evaluation; `prev_vals` = the previous generation by list position (default: the one of the spec)."""
     workers = {w[0]: w for w in ex['workers']}
     feed = {}  # (sub, kind, idx) -> (pub, pubport)
     for p, pp, s, kind, idx in ex['edges']:
@@ -370,13 +383,13 @@ def eval_graph(ex, assets_spec):
         if u in trained:
             trainer[w[1]] = u
     pers = None if assets_spec is None else list(assets_spec['persistent'])
-    prev = None if assets_spec is None else assets_spec.get('prev')
+    prev = (None if assets_spec is None else prev_values(assets_spec.get('prev'))) if prev_vals == 'spec' else prev_vals
 
     def stored(gid):
         if pers is None or gid not in pers:
             return 'none'
         i = pers.index(gid)
-        return ['stored', i] if prev is not None and i < len(prev) and prev[i] else 'none'
+        return prev[i] if prev is not None and i < len(prev) else 'none'
 
     memo: dict = {}
     onstack: set = set()
@@ -514,6 +527,27 @@ def run_impl(spec):
     out['dumps'] = [canon(d) for d in rec.dumps]
     out['loads'] = list(rec.loads)
     out['stage'] = 'done'
+    # the same compiled table executed again: on the store the first execution left, then after an external commit
+    # through the same accessor (public `State.commit`) replaced the previous generation
+    out['reruns'] = []
+    if assets is not None:
+        for step in (2, 3):
+            if step == 3:
+                assets.commit(tuple(Term('dumped', Term('stored', EXT + i)) for i in range(len(spec['assets']['persistent']))))
+            del rec.loads[:], rec.dumps[:], rec.commits[:], CALLS[:]
+            r = {}
+            try:
+                values, count = execute(symbols, rec)
+                r['values'] = {ids[k]: v for k, v in values.items()}
+                r['calls'] = collections.Counter(CALLS)
+                r['commits'] = [canon(c) for c in rec.commits]
+                r['dumps'] = [canon(d) for d in rec.dumps]
+                r['loads'] = list(rec.loads)
+            except (Cyclic, RecursionError):
+                r['error'] = 'Cyclic'
+            except Exception as e:  # pylint: disable=broad-except
+                r['error'] = type(e).__name__
+            out['reruns'].append(r)
     return out
 
 
@@ -724,8 +758,8 @@ CORPUS = [
      'head': 0, 'tail': 2, 'assets': {'persistent': ['x0', 1, 0], 'prev': [True, True, False]}},
 ]
 
-# C01-F1: a segment of one stateless worker without any subscription (valid: acyclic, trivially connected) —
-# `Linkage.leaves` asserts a non-empty leaf set ('Not acyclic'); the persistent stateful variant compiles
+# C01-F1 (fixed, fixes/C01-leaves-empty-linkage.diff): a segment of one stateless worker without any subscription
+# (valid: acyclic, trivially connected) — the unrepaired `Linkage.leaves` asserted a non-empty leaf set ('Not acyclic')
 LONE = [
     {'groups': [{'actor': 0, 'stateful': False}], 'nodes': [{'group': 0, 'szin': 1, 'szout': 1}], 'subs': [],
      'head': 0, 'tail': None, 'assets': None},
@@ -848,7 +882,7 @@ class C01(fw.Check):
         'persistent list: duplicate free, in a training segment a subset of the groups trained in it',
         'the theorems quantify over every visit order covering the members once (hypothesis order.Perm uids) instead of '
         'proving that Traversal.each does so; the visited set is compared with the model and with a reachability oracle',
-        'the one-worker segment without any link is excluded (Segment.linked): known finding C01-F1',
+        'model and theorems are those of the code with fix C01-F1 (Linkage.leaves accepts an empty linkage)',
         'uuid4 keys never collide',
     ]
 
@@ -864,8 +898,10 @@ class C01(fw.Check):
             ex = impl['export']
             rank = topo_rank(ex)
             impl['rank'] = rank
-            line = sexp.dumps(['all', seg_sexp(ex), assets_sexp(spec.get('assets'), len(spec['groups'])), ex['order'],
-                               [[u, r] for u, r in sorted((rank or {}).items())]])
+            a = spec.get('assets')
+            line = sexp.dumps(['all', seg_sexp(ex), assets_sexp(a, len(spec['groups'])), ex['order'],
+                               [[u, r] for u, r in sorted((rank or {}).items())],
+                               [] if a is None else [['stored', EXT + i] for i in range(len(a['persistent']))]])
             impls.append((spec, impl))
             lines.append(line)
         answers = self.model(lines)
@@ -883,7 +919,7 @@ class C01(fw.Check):
         key = (repr(seg_sexp(ex)), repr(a))
         if not (isinstance(m, list) and m and m[0] == 'all'):
             raise fw.MachineryError(f'model driver rejected a case: {m!r}')
-        _, mcomp, mrun, meval, mdfs, mwf, mspec = m
+        _, mcomp, mrun, meval, mdfs, mwf, mspec, mrerun = m
         nw = len(ex['workers'])
         witness = {'spec': spec}
         # members of the segment = what Traversal.each visits; the order itself is incidental (the theorems hold for
@@ -906,10 +942,6 @@ class C01(fw.Check):
                 self._mech(f'exception class {cls} vs model {mcomp[1]}')
             if stream == 'valid' and impl['rank'] is not None:
                 sig = f'compile-raises-{cls}'
-                w0 = ex['workers'][0]
-                preset = bool(w0[3]) and a is not None and w0[1] in a['persistent']
-                if cls == 'AssertionError' and not ex['edges'] and len(ex['workers']) == 1 and not preset:
-                    sig += '-unlinked-single-worker'  # C01-F1: nothing else gets this signature
                 self.violate(f'flow.compile raises {cls} on a valid segment ({len(ex["workers"])} workers, '
                              f'{len(ex["edges"])} subscriptions)', witness, sig)
             return
@@ -1009,36 +1041,68 @@ class C01(fw.Check):
                          'describes', mspec)
         if not valid:
             return
-        functor_vals = sorted(repr(impl['values'][k]) for k, d, _ in itab if d[0] == 'functor')
+        self._judge(impl, itab, ovals, ocommit, ocalls, a, ex, witness, '')
+        # ---- re-execution of the same compiled table (instructions must not carry state across executions) ----------
+        if a is None or not impl.get('reruns'):
+            return
+        pers = a['persistent']
+        prev1 = prev_values(a.get('prev'))
+        evolved = [c[1] for c in ocommit] if ocommit is not None and all(c is not None for c in ocommit) else prev1
+        stores = [('2nd execution (store left by the 1st)', evolved),
+                  ('3rd execution (after an external commit)', [['stored', EXT + i] for i in range(len(pers))])]
+        mruns = mrerun[1:] if isinstance(mrerun, list) else []
+        for n, ((label, prev_vals), r) in enumerate(zip(stores, impl['reruns'])):
+            if 'error' in r:
+                self.violate(f'{label}: executing the compiled table raises {r["error"]}', witness, f'rerun-raises-{r["error"]}')
+                continue
+            rvals, rcommit, rcalls = eval_graph(ex, a, prev_vals)
+            self._judge(r, itab, rvals, rcommit, rcalls, a, ex, witness, '-rerun', label + ': ')
+            if n < len(mruns):
+                mv = {repr(k): v for k, v in mruns[n]}
+                iv = sorted(repr(r['values'][k]) for k, d, _ in itab if d[0] == 'functor')
+                mm = sorted(repr(mv.get(k)) for k, d, _ in mtab if d[0] == 'functor')
+                if iv != mm:
+                    self.diverge(f'{label}: values of the tasks', witness, [x for x in iv if x not in mm][:2],
+                                 [x for x in mm if x not in iv][:2])
+                mc = [v[1] for v in mv.values() if isinstance(v, list) and v and v[0] == 'committed']
+                if r['commits'] != mc:
+                    self.diverge(f'{label}: committed generation', witness, r['commits'], mc)
+            elif stream == 'valid':
+                self.diverge(f'{label}: the model did not re-execute', witness, 'values', mrerun)
+
+    def _judge(self, run, itab, ovals, ocommit, ocalls, a, ex, witness, suffix, label=''):
+        """The oracle on one execution of the compiled table (real code) against direct graph evaluation."""
+        functor_vals = sorted(repr(run['values'][k]) for k, d, _ in itab if d[0] == 'functor')
         want = sorted(repr(v) for v in ovals.values())
         if functor_vals != want:
             missing = [v for v in want if v not in functor_vals][:1]
             extra = [v for v in functor_vals if v not in want][:1]
-            sig = 'dataflow-value' + ('-count' if len(functor_vals) != len(want) else '')
-            self.violate(f'compiled table computes {extra} where the task graph yields {missing} '
+            sig = 'dataflow-value' + ('-count' if len(functor_vals) != len(want) else '') + suffix
+            self.violate(f'{label}compiled table computes {extra} where the task graph yields {missing} '
                          f'({len(functor_vals)} functors for {len(want)} workers)', witness, sig)
-        if impl['calls'] != ocalls:
-            self.violate(f'actor invocations {dict(impl["calls"])} differ from one per task {dict(ocalls)}', witness,
-                         'task-not-once')
+        if run['calls'] != ocalls:
+            self.violate(f'{label}actor invocations {dict(run["calls"])} differ from one per task {dict(ocalls)}', witness,
+                         'task-not-once' + suffix)
         if ocommit is None:
-            if impl['commits'] or impl['dumps']:
-                self.violate(f'states dumped/committed ({impl["commits"]}) although no persistent group is trained', witness,
-                             'commit-unexpected')
+            if run['commits'] or run['dumps']:
+                self.violate(f'{label}states dumped/committed ({run["commits"]}) although no persistent group is trained',
+                             witness, 'commit-unexpected' + suffix)
         else:
-            if impl['commits'] != [ocommit]:
-                self.violate(f'committed {impl["commits"]} but the persistent list demands {[ocommit]}', witness,
-                             'commit-positions')
-            if sorted(map(repr, impl['dumps'])) != sorted(repr(c[1]) for c in ocommit):
-                self.violate('dumped states differ from the trained states of the persistent groups', witness, 'dump-set')
+            if run['commits'] != [ocommit]:
+                self.violate(f'{label}committed {run["commits"]} but the persistent list demands {[ocommit]}', witness,
+                             'commit-positions' + suffix)
+            if sorted(map(repr, run['dumps'])) != sorted(repr(c[1]) for c in ocommit):
+                self.violate(f'{label}dumped states differ from the trained states of the persistent groups', witness,
+                             'dump-set' + suffix)
         # loads: only positions of persistent groups that are members of the segment
         if a is not None:
             gids = {w[1] for w in ex['workers'] if w[3]}
             allowed = {i for i, p in enumerate(a['persistent']) if p in gids}
-            if not set(impl['loads']) <= allowed:
-                self.violate(f'states loaded from positions {sorted(set(impl["loads"]))}, persistent members are at '
-                             f'{sorted(allowed)}', witness, 'load-positions')
-        elif impl['loads']:
-            self.violate('state loaded without persistent assets', witness, 'load-positions')
+            if not set(run['loads']) <= allowed:
+                self.violate(f'{label}states loaded from positions {sorted(set(run["loads"]))}, persistent members are at '
+                             f'{sorted(allowed)}', witness, 'load-positions' + suffix)
+        elif run['loads']:
+            self.violate(f'{label}state loaded without persistent assets', witness, 'load-positions' + suffix)
 
     # ---- streams ------------------------------------------------------------------------------
     def correspondence(self):
@@ -1167,7 +1231,7 @@ class C01(fw.Check):
         return got[0] if got else None
 
 
-_FAKE_ALL = '(all (ok ()) skip (ok () none) (ok ()) (ok true true) (true true))'
+_FAKE_ALL = '(all (ok ()) skip (ok () none) (ok ()) (ok true true) (true true) (reruns))'
 
 
 def _smaller(spec):
